@@ -35,3 +35,23 @@ func TestVerifWiringC14(t *testing.T) {
 		t.Errorf("the staking keeper burns through %s, not through %s", stk, want)
 	}
 }
+
+// TestVerifWiringC13: the coinomics end blocker mints on the bonded total of the block it runs in, so it has to run after
+// the staking end blocker (which moves tokens between the bonded and the not-bonded pool when the validator set changes).
+func TestVerifWiringC13(t *testing.T) {
+	a, _ := Setup(false, nil, "haqq_11235-1")
+	order := a.mm.OrderEndBlockers
+	idx := func(name string) int {
+		for i, n := range order {
+			if n == name {
+				return i
+			}
+		}
+		return -1
+	}
+	stk, coin := idx("staking"), idx("coinomics")
+	t.Logf("WIRING-PROBE end blockers: staking at %d, coinomics at %d", stk, coin)
+	if stk < 0 || coin < 0 || coin < stk {
+		t.Errorf("the coinomics end blocker (position %d) must run after the staking end blocker (position %d)", coin, stk)
+	}
+}
